@@ -612,6 +612,27 @@ pub fn corpus<F: FnMut(&'static str, &[u8])>(c: &CorpusCfg, f: &mut F) {
     fam_random(c, f);
     fam_semantic(c, f);
     fam_heavy(c, f);
+    fam_max_deltas(c, f);
+}
+
+/// very many options that each carry the largest two-byte extended delta (the running number passes
+/// 65535 at the second one and 2^32 after 65538 of them)
+fn fam_max_deltas<F: FnMut(&'static str, &[u8])>(c: &CorpusCfg, f: &mut F) {
+    if c.level == 0 || !c.mine(3) {
+        return;
+    }
+    for n in [2usize, 3, 257, 65537, 65538, 65540, 131077] {
+        for first in [[0xe0u8, 0xfe, 0xf2], [0xe0, 0x00, 0x00], [0xe0, 0xfe, 0xf1]] {
+            let mut b: Vec<u8> = vec![0x40, 0x01, 0x00, 0x07];
+            b.extend_from_slice(&first);
+            for _ in 1..n {
+                b.extend_from_slice(&[0xe0, 0xfe, 0xf2]);
+            }
+            f("many-max-delta-options", &b);
+            b.extend_from_slice(&[0xff, 0x01]);
+            f("many-max-delta-options", &b);
+        }
+    }
 }
 
 /// option values with a meaning to layers ABOVE the section-3 framing (path traversal, empty
